@@ -61,6 +61,7 @@ MSGS = [
 ]
 
 PRELUDE = """#![allow(dead_code, unused_imports, clippy::all)]
+#![deny(non_snake_case)]
 use rsactor::{message_handlers, Actor, ActorRef};
 use std::fmt;
 type MyRes = std::result::Result<u32, String>;
@@ -102,7 +103,13 @@ pub struct GetAll;
     }}
 
     #[handler]
-    async fn get_state(&mut self, _m: GetState, _r: &ActorRef<Self>) -> (u32, u32) {{ {state} }}
+    #[allow(non_snake_case)]
+    async fn get_state(&mut self, _m: GetState, _r: &ActorRef<Self>) -> (u32, u32) {{
+        // the method is re-emitted as written: an attribute below #[handler] still applies to it
+        let Kept_Attribute = 0u32;
+        let _ = Kept_Attribute;
+        {state}
+    }}
 
     #[handler]
     async fn get_all(&mut self, _m: GetAll, _r: &ActorRef<Self>) -> Self {{ self.clone() }}
